@@ -452,6 +452,48 @@ func c08Items(c *core.Collector, x *Ctx) {
 		}
 	})
 	c.Count("single_item_cases", int64(len(jobs)))
+	// magic numbers: alarm / status words and payload edges that look like file signatures (JPEG, PNG, GIF, RIFF, the JT1078 and
+	// attachment chunk markers, frame delimiters), for every multimedia type / format code of the 0x0801 header: a decoder that
+	// sniffs content instead of trusting the layout reads these wrongly
+	{
+		magics := []uint32{0xFFD8FFE0, 0xFFD8FFE1, 0xFFD8FFDB, 0x89504E47, 0x47494638, 0x52494646, 0x30316364, 0x7E7E7E7E, 0x7D017D02, 0x49443303, 0x00000000, 0xFFFFFFFF, 0x1A45DFA3, 0x66747970}
+		tails := [][]byte{{0xFF, 0xD9}, {0x49, 0x45, 0x4E, 0x44, 0xAE, 0x42, 0x60, 0x82}, {0x00, 0x3B}, {0xaa, 0xbb, 0xcc}, {}}
+		n801 := 0
+		for mi, mg := range magics {
+			for ti, tail := range tails {
+				r := core.NewRand(c.Seed, "c08magic", uint64(mi*16+ti))
+				for pos := 0; pos < 2; pos++ {
+					a, st := mg, r.U32()
+					if pos == 1 {
+						a, st = r.U32(), mg
+					}
+					blk := c08Block(r, a, st)
+					c08Run(c, blk, nil, false, true, "magic-words", "0200", "0704")
+					for typ := 0; typ < 3; typ++ {
+						for fmtc := 0; fmtc < 5; fmtc++ {
+							body := append([]byte{0, 0, 0, 9, byte(typ), byte(fmtc), 1, 2}, blk...)
+							body = append(body, 0xFF, 0xD8, 0xFF, 0xE0, 1, 2, 3)
+							body = append(body, tail...)
+							c.Eval()
+							w := func() any {
+								return map[string]any{"kind": "c08", "carrier": "0801", "body": core.Hex(body), "block": core.Hex(blk), "expect_reject": false, "gen": "magic-0801"}
+							}
+							var bad string
+							if guard(c, w, func() { bad = c08Check("0801", body, blk, nil, false) }) {
+								continue
+							}
+							n801++
+							c.NonTrivial(core.HashBytes([]byte("0801m"), body))
+							if bad != "" {
+								c.Violate(bad, "location decoding differs from the standard's reading: "+bad+" (carrier 0801, magic-number words / payload)", w())
+							}
+						}
+					}
+				}
+			}
+		}
+		c.Count("magic_number_0801_cases", int64(n801))
+	}
 	// items whose total length (28-byte block + additional information) sits at the edges of the 0x0704 item length word:
 	// 255/256/257, 32767/32768 and 65533..65535 bytes, filled with unknown items of up to 255 content bytes (a batch that
 	// large reaches the server as a sub-packaged message). Through 0x0200 and as first/last item of a 0x0704 batch.
